@@ -946,7 +946,7 @@ func (in *Interp) execFrom(fr *Frame, b *ssa.BasicBlock, prev *ssa.BasicBlock) V
 }
 
 func shortFile(f string) string {
-	f = strings.TrimPrefix(f, "/repo/")
+	f = strings.TrimPrefix(f, repoDir+"/")
 	if i := strings.Index(f, "/pkg/mod/"); i >= 0 {
 		f = f[i+9:]
 	}
